@@ -36,10 +36,14 @@ class Monitor:
         return self.seq
 
     def _us(self, rec: Any = None) -> int:
+        """Record time of a change, or (no record) a fresh tick of the virtual clock so that every
+        monitor event has its own instant, comparable with record timestamps."""
         if rec is not None:
             ts = rec.timestamp
             return int(round(ts.timestamp() * 1_000_000))
-        return self.clock.us if self.clock is not None else self._n()
+        if self.clock is not None:
+            return self.clock._read() if self.clock.tick_us else self.clock.us
+        return self._n()
 
     def _ast(self, invocation_id: Any, status: Any, runner_id: Any = None) -> Any:
         try:
@@ -47,15 +51,17 @@ class Monitor:
         except Exception as exc:
             self.rejected.append({"inv": str(invocation_id), "status": status.name, "by": runner_id, "err": type(exc).__name__, "seq": self._n()})
             raise
+        # "us" = record time (taken inside the atomic section), "vis" = an instant after the call returned:
+        # the change became visible to readers somewhere in [us, vis]
         self.transitions.append({"inv": str(invocation_id), "status": rec.status.name, "by": runner_id, "owner": rec.runner_id,
-                                 "us": self._us(rec), "seq": self._n(), "actor": getattr(sched.current_actor(), "name", None)})
+                                 "us": self._us(rec), "vis": self._us(), "seq": self._n(), "actor": getattr(sched.current_actor(), "name", None)})
         return rec
 
     def _reg(self, invocations: Any, runner_id: Any = None) -> Any:
         rec = self._orig_reg(invocations, runner_id)
         for inv in invocations:
             self.transitions.append({"inv": str(inv.invocation_id), "status": rec.status.name, "by": runner_id, "owner": rec.runner_id,
-                                     "us": self._us(rec), "seq": self._n(), "actor": getattr(sched.current_actor(), "name", None)})
+                                     "us": self._us(rec), "vis": self._us(), "seq": self._n(), "actor": getattr(sched.current_actor(), "name", None)})
         return rec
 
     def _poll(self, max_num_invocations: int, runner_ctx: Any) -> Any:
